@@ -39,6 +39,16 @@ func (s *loadSeries) add(v float64) {
 // maxBetween: the largest sample that ended in [from - pad, to + pad]; if the monitor produced nothing
 // in that window although it should have, it was starved itself: then `starved(gap)` says what that means.
 func (s *loadSeries) maxBetween(from, to time.Time, pad, period time.Duration, starved func(gap time.Duration) float64) float64 {
+	return s.between(from, to, pad, period, starved, false)
+}
+
+// medianBetween: like maxBetween but the MEDIAN of the samples: starvation is sustained, a single slow sample
+// (process start-up, a GC cycle, the harness's own burst of parallel TLS handshakes) is not starvation.
+func (s *loadSeries) medianBetween(from, to time.Time, pad, period time.Duration, starved func(gap time.Duration) float64) float64 {
+	return s.between(from, to, pad, period, starved, true)
+}
+
+func (s *loadSeries) between(from, to time.Time, pad, period time.Duration, starved func(gap time.Duration) float64, median bool) float64 {
 	from, to = from.Add(-pad), to.Add(pad)
 	s.mu.Lock()
 	defer s.mu.Unlock()
@@ -48,11 +58,17 @@ func (s *loadSeries) maxBetween(from, to time.Time, pad, period time.Duration, s
 	if i > 0 {
 		last = s.samples[i-1].at
 	}
+	var vals []float64
 	for ; i < len(s.samples) && !s.samples[i].at.After(to); i++ {
 		if s.samples[i].v > max {
 			max = s.samples[i].v
 		}
+		vals = append(vals, s.samples[i].v)
 		last = s.samples[i].at
+	}
+	if median && len(vals) > 0 {
+		sort.Float64s(vals)
+		max = vals[(len(vals)-1)/2] // lower median: one of two samples being slow is not sustained either
 	}
 	if last.Before(from) {
 		last = from
@@ -118,7 +134,7 @@ func startJitterMonitor() {
 func loadBetween(from, to time.Time) (float64, float64) {
 	j := jitterSeries.maxBetween(from, to, 10*time.Millisecond, 5*time.Millisecond,
 		func(gap time.Duration) float64 { return float64(gap) / float64(time.Millisecond) })
-	s := slowSeries.maxBetween(from, to, 25*time.Millisecond, 20*time.Millisecond,
+	s := slowSeries.medianBetween(from, to, 40*time.Millisecond, 20*time.Millisecond,
 		func(gap time.Duration) float64 { return 1 + float64(gap)/float64(2*time.Millisecond) })
 	if s < 1 {
 		s = 1
